@@ -4,7 +4,9 @@ import (
 	"bytes"
 	"context"
 	"fmt"
+	goat "github.com/avos-io/goat"
 	"google.golang.org/protobuf/types/known/wrapperspb"
+	"io"
 	"time"
 
 	"google.golang.org/grpc"
@@ -135,6 +137,7 @@ func c11(tier string) []*explore.Scenario {
 	if tier == "thorough" {
 		out = append(out, explore.Sharded(c11TwoAbandoned(0, 3, 2), 8)...)
 	}
+	out = append(out, c11AbandonedWithReportingStats(4, 64, 1), c11AbandonedWithReportingStats(8, 64, 0), c11AbandonedWithReportingStats(3, 0, 1))
 	out = append(out, opInWriteAll("C11", 1)...)
 	// finer granularity (a scheduling point after every Unlock as well) on the small core scenarios
 	out = append(out, fineGrained(c11One(abandon{"handler-returns", 2, 0, false, false, false}, 64, 0, 1), c11One(abandon{"caller-cancels", 2, 1, false, false, false}, 64, 0, 1))...)
@@ -475,6 +478,82 @@ func c11TwoAbandonedG(capn, n, bound int, gated bool) *explore.Scenario {
 			vsched.Obs("%s | %s | p1 done=%v p2 done=%v", hr.Summary(), cc.Summary(), p1.CDone, p2.CDone)
 			if !hr.CDone {
 				vsched.Fail(fam+"|own-caller-hang", "the caller of the stream whose handler returned early never got its result: %s; threads: %s", hr.Summary(), threadList())
+			}
+			if !p1.CDone {
+				vsched.Fail(fam+"|rpc-hang", "a later unary call never returned; threads: %s", threadList())
+			} else {
+				checkUnary(p1, "x", fam)
+			}
+			if !p2.CDone {
+				vsched.Fail(fam+"|deadline-rpc-hang", "a later unary call with a 1s deadline never returned")
+			}
+			finishDirect(d, w, true)
+		},
+	}
+}
+
+// c11AbandonedWithReportingStats: the client has a stats handler that reports the End of an RPC with a unary call on
+// the same connection (telemetry). The caller of a server stream never reads and cancels with n responses
+// outstanding (the connection's read loop is parked delivering them). The report and later calls complete: by the
+// time user code learns that the stream is over, the stream no longer holds the connection up.
+func c11AbandonedWithReportingStats(n, capn, bound int) *explore.Scenario {
+	fam := "C11/abandoned-with-reporting-stats"
+	return &explore.Scenario{
+		Name: fmt.Sprintf("C11/abandoned-with-reporting-stats/n=%d/cap=%d/d=%d", n, capn, bound), Family: fam, Prop: "C11", Bound: bound, Horizon: time.Hour,
+		Run: func() {
+			w := env.NewWorld()
+			var d *env.Direct
+			var report *env.Rec
+			sh := &reentrantSH{seen: map[string]bool{}}
+			sh.do = func(rpc int, event string) {
+				if event == "End" {
+					report = w.Rec("report", "Unary")
+					w.CallUnary(d.CC, context.Background(), report, "x")
+				}
+			}
+			d = env.NewDirect(w, env.DirectOpts{Pipe: env.PipeOpts{Cap: capn}, DialOpts: []goat.DialOption{goat.WithStatsHandler(sh)}})
+			vsched.Settle()
+			vsched.Explore(true)
+			ab := w.Rec("ab", "SStream")
+			w.Handlers["ab"] = func(r *env.Rec, ss grpc.ServerStream) error {
+				if _, err := recvOne(r, ss); err != nil && err != io.EOF {
+					return err
+				}
+				for i := 0; i < n; i++ {
+					if err := ss.SendMsg(env.S(fmt.Sprintf("b%d", i))); err != nil {
+						return err
+					}
+				}
+				<-ss.Context().Done()
+				return status.FromContextError(ss.Context().Err()).Err()
+			}
+			ctx, cancel := context.WithCancel(context.Background())
+			vsched.GoNamed("caller-ab", func() {
+				if cs := w.Open(d.CC, ctx, ab); cs != nil {
+					env.CSend(ab, cs, "go")
+					env.CClose(ab, cs)
+				}
+				ab.CDone = true // never reads
+			})
+			vsched.Quiesce()
+			cancel()
+			vsched.Quiesce()
+			p1 := w.Rec("p1", "Unary")
+			vsched.GoNamed("probe-p1", func() { w.CallUnary(d.CC, context.Background(), p1, "x") })
+			vsched.Quiesce()
+			p2 := w.Rec("p2", "Unary")
+			vsched.GoNamed("probe-p2", func() {
+				c2, cancel2 := context.WithTimeout(context.Background(), time.Second)
+				defer cancel2()
+				w.CallUnary(d.CC, c2, p2, "x")
+			})
+			vsched.QuiesceTime()
+			if report == nil {
+				vsched.Fail(fam+"|harness", "the stats handler never saw the End of the abandoned stream")
+			} else if !report.CDone {
+				vsched.Fail(fam+"|rpc-hang", "the call a stats handler makes when it is told that the abandoned stream ended never returns; threads: %s", threadList())
+			} else {
+				checkUnary(report, "x", fam)
 			}
 			if !p1.CDone {
 				vsched.Fail(fam+"|rpc-hang", "a later unary call never returned; threads: %s", threadList())
